@@ -836,6 +836,8 @@ class InterpBase:
                 if r is None:
                     if modname + '.' + name in ex.repo.modules:
                         return VExt('mod:' + modname + '.' + name)
+                    if ex.ghost.get('module_attr_errors'):
+                        self.throw('AttributeError', f'module {modname} has no attribute {name}')
                     raise Undecided(f'{modname}.{name} unresolved')
                 if r[0] == 'const':
                     key = (modname, name)
